@@ -817,6 +817,33 @@ class CFG:
                     used |= set(clash.values())
                 return self._block(ds, ctxs)
         if self.inliner is not None:
+            if isinstance(s, (ast.For, ast.AsyncFor)) and isinstance(s.iter, (ast.GeneratorExp, ast.ListComp)) and len(s.iter.generators) == 1 \
+                    and not s.orelse and not s.iter.generators[0].is_async:
+                # `for T in (E for V in IT if C): body`  ==  `for V in IT: if C: T = E; body`  (V local to the comprehension)
+                g = s.iter.generators[0]
+                import copy as _copy
+                from .inline import _Renamer
+                used = self._names_used()
+                vs = {x.id for x in ast.walk(g.target) if isinstance(x, ast.Name)}
+                ren = {v: "%s__g%d" % (v, len(self.nodes)) for v in vs}
+                used |= set(ren.values())
+                R = _Renamer(ren)
+                tgt = R.visit(_copy.deepcopy(g.target))
+                elt = R.visit(_copy.deepcopy(s.iter.elt))
+                conds = [R.visit(_copy.deepcopy(c_)) for c_ in g.ifs]
+                asg = ast.copy_location(ast.Assign(targets=[_copy.deepcopy(s.target)], value=elt), s)
+                inner_body = [asg] + list(s.body)
+                for c_ in reversed(conds):
+                    inner_body = [ast.copy_location(ast.If(test=c_, body=inner_body, orelse=[]), s)]
+                loop = ast.copy_location(type(s)(target=tgt, iter=g.iter, body=inner_body, orelse=[]), s)
+                for x in ast.walk(loop):
+                    if isinstance(x, ast.Name) and isinstance(x.ctx, ast.Load) and False:
+                        pass
+                for x in ast.walk(tgt):
+                    if isinstance(x, ast.Name):
+                        x.ctx = ast.Store()
+                ast.fix_missing_locations(loop)
+                return self._stmt(loop, ctxs)
             if isinstance(s, ast.For):
                 fr = self._try_unroll(s, ctxs)
                 if fr is not None:
@@ -1245,7 +1272,9 @@ class CFG:
         if r is None:
             import copy as _copy
             r = _copy.copy(f)
-            if self.fi.cls is not None and f.cls is not None and self.fi.cls.is_subclass_of(f.cls):
+            if self.fi.cls is not None:
+                # in a spliced body `self` always denotes the object of the function under construction: the helper's own
+                # `self` was renamed to its receiver (a local object, `self.<field>`, or that same `self`)
                 r.cls = self.fi.cls
             r.qualname = self.fi.qualname         # recursion / identity checks are about the function under construction
             cache[q] = r
